@@ -5,7 +5,7 @@
 (* lattices.  Every state of this specification is one (input, expected     *)
 (* output) pair; the driver harness/drivers/kernels.py dumps the states and *)
 (* runs each input through                                                  *)
-(*   - the shipped compiled kernel,                                         *)
+(*   - the shipped compiled kernel and the Python wrapper dispatching to it,*)
 (*   - a plain interpretation of the current .pyx,                          *)
 (*   - the OpenMP build of the generated C for every thread count,          *)
 (* and compares with `out`.                                                 *)
@@ -18,7 +18,7 @@
 (* Inputs come from two sources, both enumerated by TLC as initial states:  *)
 (*   Cases    a sequence of input records (seeded lattice inputs of every   *)
 (*            shape 0/1..4 and dimension 1..4, written into the MC wrapper  *)
-(*            module by the driver),                                        *)
+(*            module by the driver; they carry an extra field `tag`),       *)
 (*   boxes    the MC wrapper's own INIT  (CaseInit \/ \E ... : inp = [...]) *)
 (*            /\ out = Result(inp)  enumerates complete small boxes: every  *)
 (*            shape and every value combination of a small value set.       *)
